@@ -2,16 +2,16 @@ SPECIFICATION MCSpec
 CONSTANTS
   ARD = 6
   MaxA = 3
-  MaxB = 2
-  MaxBlocks = 5
+  MaxB = 3
+  MaxBlocks = 6
   UseRoles = {1, 4}
   MinH2 = 3
   MinH3 = 2
   FundingRole = FALSE
   MaxExplored = 1
-  MaxDup = 0
+  MaxDup = 1
   MaxRestarts = 1
-  Intermediate = FALSE
+  Intermediate = TRUE
 INVARIANT EnvConsistent
 INVARIANT IdleIsSynced
 INVARIANT EmitScripts
